@@ -1911,7 +1911,8 @@ theorem chunksAux_enc (last rest : Bytes) (hl0 : parseHex last = some 0) (hl15 :
     obtain ⟨hcl, htr⟩ := parseHex_clean last 0 hl0
     have hn : ¬ (last.length > 15) := by omega
     have hhb := Spec.Http.head_not_blank_of_parseHex last 0 hl0
-    simp [chunksAux, encChunks, chunkData, crlfLine_enc _ _ hcl, hhb, htr, hn, hl0]
+    have hnt := Spec.Http.no_tab_of_parseHex last 0 hl0
+    simp [chunksAux, encChunks, chunkData, crlfLine_enc _ _ hcl, hhb, hnt, htr, hn, hl0]
   | c :: cs, acc, fuel, hf, hw => by
     obtain ⟨f, rfl⟩ : ∃ f, fuel = f + 1 := ⟨fuel - 1, by omega⟩
     obtain ⟨hd0, h15, hsz⟩ := wfChunk_facts c (hw c (by simp))
@@ -1926,8 +1927,9 @@ theorem chunksAux_enc (last rest : Bytes) (hl0 : parseHex last = some 0) (hl15 :
     have ih := chunksAux_enc last rest hl0 hl15 cs (acc ++ c.data) f (by simp at hf; omega)
       (fun x hx => hw x (by simp [hx]))
     have hhb := Spec.Http.head_not_blank_of_parseHex c.size _ hsz
+    have hnt := Spec.Http.no_tab_of_parseHex c.size _ hsz
     rw [e1]
-    simp only [chunksAux, crlfLine_enc _ _ hcl, hhb, Bool.false_eq_true, htr, hn, if_false, hsz, hm]
+    simp only [chunksAux, crlfLine_enc _ _ hcl, hhb, hnt, Bool.false_eq_true, htr, hn, if_false, hsz, hm]
     rw [← hm]
     have e2 : c.data ++ 13 :: 10 :: (encChunks cs ++ (last ++ 13 :: 10 :: rest)) =
         (c.data ++ [13, 10]) ++ (encChunks cs ++ (last ++ 13 :: 10 :: rest)) := by simp
